@@ -278,3 +278,67 @@ func (ec *evalCtx) childrenObligation(call *ast.CallExpr) {
 	ec.fc.oblige(ec.st, "children", ec.eqValues(slot, nilMarker{}), call.Pos(),
 		"component "+exprText(call.Fun)+" is called without a block: the children slot must be empty")
 }
+
+// isGeneratedTemplateFunc: fn is declared in a corpus package and its body is
+// `return templruntime.GeneratedTemplate(...)`, i.e. it is a generated template
+// whose closure is verified against the TEMPLATE contract in this same run.
+func (e *Engine) isGeneratedTemplateFunc(fn *types.Func) bool {
+	if fn == nil || fn.Pkg() == nil || !strings.HasPrefix(fn.Pkg().Path(), "verifcorpus/") {
+		return false
+	}
+	recv := ""
+	if sig, ok := fn.Type().(*types.Signature); ok && sig.Recv() != nil {
+		t := sig.Recv().Type()
+		if p, ok := t.(*types.Pointer); ok {
+			t = p.Elem()
+		}
+		if n, ok := t.(*types.Named); ok {
+			recv = n.Obj().Name()
+		}
+	}
+	fd := e.funcDecls[contractKey(fn.Pkg().Path(), recv, fn.Name())]
+	if fd == nil || fd.Body == nil || len(fd.Body.List) != 1 {
+		return false
+	}
+	rs, ok := fd.Body.List[0].(*ast.ReturnStmt)
+	if !ok || len(rs.Results) != 1 {
+		return false
+	}
+	call, ok := rs.Results[0].(*ast.CallExpr)
+	if !ok {
+		return false
+	}
+	pkg := e.funcPkg[contractKey(fn.Pkg().Path(), recv, fn.Name())]
+	f := calleeFunc(pkg.TypesInfo, call)
+	return f != nil && f.FullName() == rtPkg+".GeneratedTemplate"
+}
+
+// genPostHook: facts available after a call in generated code.
+func (ec *evalCtx) genPostHook(call *ast.CallExpr, fn *types.Func, result Value) {
+	gi := ec.fc.gen
+	if gi == nil || fn == nil || !gi.props["C13"] {
+		return
+	}
+	if fn.Origin().FullName() != "("+modulePath+".Component).Render" {
+		return
+	}
+	sel, ok := ast.Unparen(call.Fun).(*ast.SelectorExpr)
+	if !ok {
+		return
+	}
+	rc, ok := ast.Unparen(sel.X).(*ast.CallExpr)
+	if !ok {
+		return
+	}
+	if !ec.e().isGeneratedTemplateFunc(calleeFunc(ec.info, rc)) {
+		return
+	}
+	// the callee is a generated template: its TEMPLATE contract (proved in this run) leaves the slot empty on success
+	res, ok := result.(*Term)
+	if !ok {
+		return
+	}
+	sc := &evalCtx{fc: ec.fc, st: ec.st, spec: true, pkg: ec.pkg, pol: -1}
+	slot := sc.specCall(&ast.CallExpr{Fun: ast.NewIdent("slot")})
+	ec.st.Assume(Implies(Eq(res, Int(0)), ec.eqValues(slot, nilMarker{})))
+}
